@@ -51,34 +51,61 @@ def register_qbytestensor_op(aten_ops: List[Callable]):
     return wrapper
 
 
+def quantize_like(dest, values):
+    """Quantize values with the qtype and axis of a QBytesTensor, and a scale extended to the range of the values"""
+    values = values.to(dest.dtype)
+    if dest.axis is None:
+        absmax = torch.max(torch.abs(values))
+    else:
+        absmax = torch.amax(torch.abs(values), dim=axis_to_dim(values, dest.axis), keepdim=True)
+    # The destination keeps its scale unless the values do not fit in its range
+    scale = torch.maximum(dest._scale, absmax / dtype_info(dest.qtype.dtype).max)
+    return SymmetricQuantizer.apply(values, dest.qtype, dest.axis, scale)
+
+
 def qbytes_inplace_fallback(op, *args, **kwargs):
-    """Fallback for the operations that write into a QBytesTensor (in-place and `out=` variants)
+    """Fallback for the operations that write into some of their arguments (in-place and `out=` variants)
 
     The generic fallback applies the operation to dequantized tensors: the values written there would be lost.
-    Instead, the out-of-place variant of the operation is evaluated, and its result is quantized like the
-    destination (same qtype and axis, with a scale extended to the range of the result) and copied into it.
+    Here, the operation is also applied to dequantized tensors, but each QBytesTensor it has written is then
+    quantized again from its dequantized counterpart (same qtype and axis, with a scale extended to the new range).
+
+    Args:
+        op: the operator overload (its schema tells which arguments are written)
     """
-    name = op.__name__
-    if name.endswith("_") and hasattr(torch.ops.aten, name[:-1]):
-        dest, functional = args[0], getattr(torch.ops.aten, name[:-1])
-    else:
-        dest, functional = kwargs.get("out"), op
-    if not isinstance(dest, QBytesTensor):
-        return qfallback(op, *args, **kwargs)
-    kwargs.pop("out", None)
-    result = functional(*args, **kwargs)
-    if not isinstance(result, QBytesTensor) or result.qtype != dest.qtype or result.axis != dest.axis:
-        if isinstance(result, QTensor):
-            result = result.dequantize()
-        result = result.expand(dest.size()).to(dest.dtype)
-        if dest.axis is None:
-            absmax = torch.max(torch.abs(result))
-        else:
-            absmax = torch.amax(torch.abs(result), dim=axis_to_dim(result, dest.axis), keepdim=True)
-        # The destination keeps its scale unless the result does not fit in its range
-        scale = torch.maximum(dest._scale, absmax / dtype_info(dest.qtype.dtype).max)
-        result = SymmetricQuantizer.apply(result, dest.qtype, dest.axis, scale)
-    return dest.copy_(result)
+    arguments = op._schema.arguments
+    written = [a.name for a in arguments if a.alias_info is not None and a.alias_info.is_write]
+    destinations = []
+
+    def dequantized(name, value):
+        if isinstance(value, (list, tuple)):
+            return type(value)(dequantized(name, v) for v in value)
+        if isinstance(value, QTensor):
+            plain = value.dequantize()
+            if name in written and isinstance(value, QBytesTensor):
+                destinations.append((value, plain))
+            return plain
+        return value
+
+    dq_args = [dequantized(arguments[i].name, a) for i, a in enumerate(args)]
+    dq_kwargs = {name: dequantized(name, a) for name, a in kwargs.items()}
+    output = op(*dq_args, **dq_kwargs)
+    for dest, plain in destinations:
+        if plain.size() != dest.size():
+            raise RuntimeError(f"{op}: operations that change the shape of a quantized tensor in place are not supported.")
+        if plain.numel() > 0:
+            dest.copy_(quantize_like(dest, plain))
+
+    def written_back(value):
+        # The operation returns the tensors it has written
+        if isinstance(value, (list, tuple)):
+            return type(value)(written_back(v) for v in value)
+        for dest, plain in destinations:
+            if value is plain:
+                return dest
+        return value
+
+    return written_back(output)
 
 
 def get_qbytestensor_op_dispatch(aten_op):
@@ -205,10 +232,12 @@ def neg(op, input, *args, **kwargs):
 
 @register_qbytestensor_op(
     [
+        torch.ops.aten.alias,
         torch.ops.aten.expand,
         torch.ops.aten.permute,
         torch.ops.aten.select,
         torch.ops.aten.slice,
+        torch.ops.aten.squeeze,
         torch.ops.aten.unsqueeze,
     ]
 )
